@@ -197,7 +197,19 @@ def _arange(start, stop, step, length, dtype=None, like=None):
     return SArr((n,), lambda idx, a=a, b=b: a + b * z3.ToReal(idx[0]))
 
 
-KERNELS = dict(arange=_arange, concatenate_shaped=_concatenate_shaped, getitem=_getitem, getter=_getter, getter_nofancy=_getter, getter_inline=_getter,
+def _finalize(results):
+    """dask_array._core_utils.finalize: concatenate3 when any nesting level holds more than one entry, else the lone block"""
+    if not results:
+        return concatenate_nested(results)
+    r2 = results
+    while isinstance(r2, (tuple, list)):
+        if len(r2) > 1:
+            return concatenate_nested(results)
+        r2 = r2[0]
+    return r2
+
+
+KERNELS = dict(finalize=_finalize, arange=_arange, concatenate_shaped=_concatenate_shaped, getitem=_getitem, getter=_getter, getter_nofancy=_getter, getter_inline=_getter,
                concatenate3=concatenate_nested, full_like=_full_like)
 SAFE_NAMES = {"add", "sub", "mul", "neg", "getitem", "transpose", "identity"}
 
